@@ -42,6 +42,9 @@ func Printf(ctx *runtime.Task, funcExpr *ast.CallExpr) *errchain.PlError {
 		if v, _, err := runtime.RunStmt(ctx, funcExpr.Param[i]); err != nil {
 			return err
 		} else {
+			if selfContaining(v) {
+				return runtime.NewRunError(ctx, errSelfContaining, funcExpr.Param[i].StartPos())
+			}
 			outdata = append(outdata, v)
 		}
 	}
